@@ -203,12 +203,29 @@ func KeyWrapAny(kek, pt []byte) ([]byte, error) {
 	return keyWrapAny(blk, pt), nil
 }
 
+// KeyWrapIV is the same recurrence started from an arbitrary initial value instead of A6A6A6A6A6A6A6A6 (RFC 3394
+// 2.2.3.2 allows alternative initial values; an unwrapper that expects the default one must reject the result).
+func KeyWrapIV(kek, pt []byte, iv [8]byte) ([]byte, error) {
+	blk, err := aes.NewCipher(kek)
+	if err != nil {
+		return nil, err
+	}
+	if len(pt)%8 != 0 || len(pt) < 16 {
+		return nil, ErrReject
+	}
+	return keyWrapIV(blk, pt, iv), nil
+}
+
 func keyWrapAny(blk cipher.Block, pt []byte) []byte {
+	return keyWrapIV(blk, pt, [8]byte{0xA6, 0xA6, 0xA6, 0xA6, 0xA6, 0xA6, 0xA6, 0xA6})
+}
+
+func keyWrapIV(blk cipher.Block, pt []byte, iv [8]byte) []byte {
 	n := len(pt) / 8
 	// out = A || R[1] || ... || R[n]
 	out := make([]byte, 8+len(pt))
 	for i := 0; i < 8; i++ {
-		out[i] = 0xA6
+		out[i] = iv[i]
 	}
 	copy(out[8:], pt)
 	var b [16]byte
